@@ -43,9 +43,10 @@ impl Load {
 fn f2i(x: f64) -> i64 { if x.is_finite() && x == x.trunc() && x.abs() < SAT as f64 { x as i64 } else { BAD } }
 
 struct Runs { panic: bool, r: [f64; 3], d: f64 }
-fn runs(x: &Vector<f64>, y: &Vector<f64>) -> Runs {
+fn runs(x: &Vector<f64>, y: &Vector<f64>) -> Runs { runs_n(x, y, 3) }
+fn runs_n(x: &Vector<f64>, y: &Vector<f64>, reps: usize) -> Runs {
     let mut o = Runs { panic: false, r: [f64::NAN; 3], d: f64::NAN };
-    for k in 0..3 { match guarded(|| x.dot_f64(y)) { Ok(v) => o.r[k] = v, Err(_) => o.panic = true } }
+    for k in 0..reps { match guarded(|| x.dot_f64(y)) { Ok(v) => o.r[k] = v, Err(_) => o.panic = true } }
     match guarded(|| x.dot(y)) { Ok(v) => o.d = v, Err(_) => o.panic = true }
     o
 }
@@ -110,7 +111,30 @@ pub fn exec(case: &Value, out: &mut Out) {
             let r1 = runs(&x, &y);
             emit(out, "narrow", want2, nt2, &r1, Some(r0.r[0]));
         }
-        _ => { let r0 = runs(&x, &y); emit(out, "plain", want, nt, &r0, None); }
+        _ => {
+            let r0 = runs(&x, &y); emit(out, "plain", want, nt, &r0, None);
+            // aliased call: the SAME object on both sides, x.dot_f64(&x) (and x.dot(&x)); `two` is the two-object call x.dot_f64(&x.clone())
+            // (exact data: one aliased call - repetition is judged on the two-object runs above and on the float data)
+            let ra = runs_n(&x, &x, if float { 3 } else { 1 });
+            let xc = x.clone();
+            // (on exact data the two-object call is implied by the exact value; it is made when the case asks for it)
+            let want_two = float || case.get("two").and_then(|t| t.as_bool()).unwrap_or(false);
+            let two = if want_two { guarded(|| x.dot_f64(&xc)) } else { Ok(ra.r[0]) };
+            let mut e = json!({"op": if float { "pardot_f" } else { "pardot" }, "cid": cid, "mode": mode, "phase": "alias", "len": len, "nt": nt, "want": want, "avail": avail,
+                               "panic": ra.panic || two.is_err(), "r1": bits(ra.r[0]), "d": bits(ra.d)});
+            if want_two { e["two"] = json!(bits(two.unwrap_or(f64::NAN))); }
+            if float { e["r2"] = json!(bits(ra.r[1])); e["r3"] = json!(bits(ra.r[2])); }
+            if float {
+                let (mut sq, mut sa) = (DD::ZERO, DD::ZERO); for k in 0..len { sq = sq.add(DD::prod(xf[k], xf[k])); sa = sa.add(DD::prod(xf[k], xf[k]).abs()); }
+                let unit2 = (len.max(1) as f64) * f64::EPSILON * sa.to_f64().max(f64::MIN_POSITIVE) / cal;
+                e["units"] = json!(units((ra.r[0] - ra.d).abs(), unit2)); e["uref"] = json!(units((ra.r[0] - sq.to_f64()).abs(), unit2));
+            } else {
+                let ex2: i128 = xi.iter().map(|a| (*a as i128) * (*a as i128)).sum();
+                e["ri"] = json!(f2i(ra.r[0])); e["di"] = json!(f2i(ra.d));
+                if len <= 200 { e["x"] = json!(xi); e["y"] = json!(xi); } else { e["exact"] = json!(if ex2 < SAT as i128 { ex2 as i64 } else { BAD - 1 }); }
+            }
+            out.ev(e);
+        }
     }
 }
 
@@ -121,13 +145,13 @@ pub fn gen(tier: &str, seed: u64, out: &mut Out) {
     let mut push = |out: &mut Out, mut c: Value| { cid += 1; c["cid"] = json!(cid); c["suite"] = json!("pardot"); c["seed"] = json!((seed % 1_000_000) as i64 * 100_003 % 1_000_000_007 + cid); out.raw(&c); };
     // (a) EVERY length 0..200 x EVERY worker count 1..16, integer data
     for rep in 0..(if quick { 1 } else { 3 }) { let _ = rep;
-        for want in 1..=16usize { for len in 0..=200usize { push(out, json!({"len": len, "want": want, "mode": "plain", "data": "int"})); } } }
+        for want in 1..=16usize { for len in 0..=200usize { push(out, json!({"len": len, "want": want, "mode": "plain", "data": "int", "two": !quick || (len + want) % 4 == 0})); } } }
     // (b) under load and (c) under a narrower affinity than at the first call; lengths around the worker count
     for want in 1..=16usize {
         let mut lens: Vec<usize> = vec![0, 1, want.saturating_sub(1), want, want + 1, 2 * want - 1, 2 * want + 1, 37, 200];
         for _ in 0..(if quick { 2 } else { 30 }) { lens.push(rng.gen_range(0..=200)); }
         for (j, len) in lens.into_iter().enumerate() {
-            if !quick || (j + want) % 2 == 0 { push(out, json!({"len": len, "want": want, "mode": "load", "data": "int"})); }
+            if !quick || (j + want) % 4 == 0 { push(out, json!({"len": len, "want": want, "mode": "load", "data": "int"})); }
             if want >= 2 { push(out, json!({"len": len, "want": want, "want2": rng.gen_range(1..want), "mode": "narrow", "data": "int"})); }
             // (d) data whose products are not exactly summable: judged up to reassociation
             push(out, json!({"len": len, "want": want, "mode": "plain", "data": "float"}));
